@@ -588,11 +588,13 @@ package storage
 //@   ensures[unlock; C13] txn == 0
 //@   loop 1 invariant [unlocked; C13] fs != nil && fs.ticker != nil && cacheOK(fs) && txn == 0
 
+// Verified (no longer trusted): no panic on a store newFileStore built; nothing of the modelled state changes but the ghost count of
+// open stores (assumed: stopping the timer is what that count counts).
 //@ func (f *fileStore) abandon()
 //@   props C17
-//@   trusted
+//@   requires f != nil && f.file != nil && (f.autoFlushCache ==> f.ticker != nil)
 //@   modifies storeState, openStores
-//@   ensures openStores == old(openStores) - (f.autoFlushCache ? 1 : 0)
+//@   ensures_assumed[ghost.closed] openStores == old(openStores) - (f.autoFlushCache ? 1 : 0)
 
 //@ func (f *fileStore) open() error
 //@   props C17 C12
